@@ -110,6 +110,10 @@ def cases(rng, tier):
             if tier == "quick" and alg in ("RSA-OAEP-256", "A192KW", "A192GCMKW", "ECDH-ES+A192KW", "A256KW", "ECDH-ES+A256KW") and enc not in ("A128CBC-HS256", "A256GCM"):
                 continue
             out.append({"t": "tamper_compact", "alg": alg, "enc": enc, "zip": "DEF" if (len(alg) + len(enc)) % 2 else None, "crv": CURVES[len(out) % 5]})
+    # a wrong-size symmetric key is refused on both sides (RFC 7518 fixes the key size of dir / A*KW / A*GCMKW)
+    for alg in [a for a in ALGS if a == "dir" or (a.endswith("KW") and not a.startswith(("RSA", "ECDH")))]:
+        for enc in ("A128GCM", "A256CBC-HS512"):
+            out.append({"t": "wrongsize", "alg": alg, "enc": enc})
     # JSON serialization: 1..3 recipients, AAD present / absent, protected / unprotected placement
     for alg in ("A128KW", "A256KW", "RSA-OAEP", "RSA1_5", "A128GCMKW", "A256GCMKW", "ECDH-ES+A128KW", "ECDH-ES+A256KW", "dir", "ECDH-ES"):
         for enc in (ENCS if tier != "quick" else ["A128CBC-HS256", "A256CBC-HS512", "A128GCM", "A256GCM"]):
@@ -540,8 +544,26 @@ def run_kdf(c):
     return {"info": info.hex(), "key": alg.compute_derived_key(b64d(c["z"]), info, c["bits"]).hex()}
 
 
+def run_wrongsize(c):
+    jwe = _jwe()
+    alg, enc = c["alg"], c["enc"]
+    need = R.cek_len(enc) if alg == "dir" else int(alg[1:4]) // 8
+    res = []
+    for n in (16, 24, 32, 48, 64):
+        if n == need:
+            continue
+        k = keys()["oct"][n]
+        r = _try(lambda: jwe.serialize_compact({"alg": alg, "enc": enc}, b"plaintext", k))
+        if "error" in r:
+            res.append([n, "refused"])
+            continue
+        r2 = _try(lambda: jwe.deserialize_compact(r["ok"], k))
+        res.append([n, "encrypted+decrypted" if "ok" in r2 else "encrypted"])
+    return {"need": need, "sizes": res}
+
+
 def impl(c):
-    return {"rt_compact": run_rt_compact, "tamper_compact": run_tamper_compact, "json": run_json, "cbc_tag": run_cbc_tag, "kdf": run_kdf, "rsa15_fallback": run_rsa15_fallback, "struct": run_struct, "jstruct": run_jstruct}[c["t"]](c)
+    return {"wrongsize": run_wrongsize, "rt_compact": run_rt_compact, "tamper_compact": run_tamper_compact, "json": run_json, "cbc_tag": run_cbc_tag, "kdf": run_kdf, "rsa15_fallback": run_rsa15_fallback, "struct": run_struct, "jstruct": run_jstruct}[c["t"]](c)
 
 
 def model_line(c):
@@ -571,6 +593,11 @@ def oracle(c, out):
                         ("r2a_spaced", "independent implementation (header JSON laid out with spaces) → authlib")):
             if out[d] != "ok":
                 bad(f"round trip {name} failed for {c['alg']} / {c['enc']} / zip={c['zip']} / {c['crv']}: {out[d]}", kind="roundtrip", direction=d)
+    elif t == "wrongsize":
+        for n, verdict in out["sizes"]:
+            if verdict != "refused":
+                bad(f"{c['alg']} / {c['enc']} with a {n}-octet key where RFC 7518 requires {out['need']} octets: {verdict} instead of an error", kind="wrong-size-key-accepted")
+                break
     elif t == "tamper_compact":
         for label, verdict, *rest in out["results"]:
             comp = label.split(":")[0]
